@@ -21,7 +21,7 @@ case "$1" in
     git -C $LAB/repo checkout -q -- . ; git -C $LAB/repo apply $patch || { echo "patch does not apply"; exit 2; }
     ( cd $LAB/engine && CARGO_NET_OFFLINE=true cargo build --release --offline 2>&1 | grep -E "^error" -A8 | head -20 )
     for id in "$@"; do
-      out=$(VERIF_OUT_DIR=$LAB/out $LAB/engine/target/release/h2verif check $id quick 2>&1); rc=$?
+      out=$(H2_REPO=$LAB/repo VERIF_OUT_DIR=$LAB/out $LAB/engine/target/release/h2verif check $id quick 2>&1); rc=$?
       n=$(echo "$out" | grep -c "^VIOLATION")
       if [ $rc -eq 1 ] && [ $n -gt 0 ]; then echo "$id: CAUGHT ($n; $(echo "$out" | grep -m1 'rule=' | sed 's/ :: .*//' | cut -c1-140))"; else echo "$id: MISSED (exit $rc) $(echo "$out" | grep -E 'tier=' | cut -c1-120)"; fi
     done
